@@ -496,6 +496,34 @@ class Prover:
             return done("unsat", "L3")
         return done(st3, "L3", self._model(m3, goal, list(domain) + list(pc)) if st3 == "sat" else None)
 
+    def retry_concrete(self, goal, domain, pc, extra, envs, timeout_ms=8000):
+        """after an abstract `sat`: fix some variables (typically the model parameters) to concrete values, fold the
+        transcendental applications whose arguments became constants to (float-exact) rationals, and solve again.
+        A model found this way is consistent with the real exp/log/pow on those applications, so it replays.
+        returns model dict or None."""
+        for env in envs:
+            subs = [(z3.Real(k), zconst_f(v)) for k, v in env.items()]
+            if not subs:
+                continue
+            terms = [z3.Not(goal)] + list(domain) + list(pc) + list(extra)
+            terms = [fold_ufs(z3.substitute(t, *subs)) for t in terms]
+            p2 = Prover(timeout_ms=timeout_ms, use_lemmas=self.use_lemmas)
+            ac = [p2.abstract(t) for t in terms]
+            ac += p2.lemmas(p2.classes_in(ac))
+            for d in denominators(ac[0]):
+                ac.append(d != 0)
+            st, m = _raw_check(ac, timeout_ms, want_model=True)
+            if st == "sat" and m is not None:
+                names = {}
+                for t in terms:
+                    free_vars(t, names, set())
+                out = dict(env)
+                for n, v in names.items():
+                    if v.sort() == z3.RealSort():
+                        out[n] = zeval.z3num_to_float(m.eval(v, model_completion=True))
+                return out
+        return None
+
     def _model(self, m, goal, others):
         if m is None:
             return None
@@ -509,6 +537,37 @@ class Prover:
             val = m.eval(v, model_completion=True)
             out[n] = zeval.z3num_to_float(val)
         return out
+
+
+def zconst_f(v):
+    fr = Fraction(float(v))
+    return z3.RealVal(f"{fr.numerator}/{fr.denominator}") if fr.denominator != 1 else z3.RealVal(fr.numerator)
+
+
+def fold_ufs(t):
+    """replace uf_exp/uf_log/uf_pow applications whose arguments are numerals by the float value of the real function."""
+    import math
+
+    apps = []
+    _postorder_ufs(t, set(), apps)
+    mapping = []
+    for app in apps:
+        args = [z3.simplify(z3.substitute(app.arg(k), *mapping) if mapping else app.arg(k)) for k in range(app.num_args())]
+        if all(z3.is_rational_value(a) for a in args):
+            vals = [float(Fraction(a.numerator_as_long(), a.denominator_as_long())) for a in args]
+            fn = app.decl().name()
+            try:
+                if fn == "uf_exp":
+                    r = math.exp(vals[0])
+                elif fn == "uf_log":
+                    r = math.log(vals[0])
+                else:
+                    r = math.pow(vals[0], vals[1])
+            except (ValueError, OverflowError, ZeroDivisionError):
+                continue
+            if r == r and abs(r) != float("inf"):
+                mapping.append((app, zconst_f(r)))
+    return z3.substitute(t, *mapping) if mapping else t
 
 
 def _dedup(terms):
